@@ -1136,7 +1136,7 @@ class SymExec(object):
                 st.events.append(('in-comp',) + tuple(e))
             st.data = sub.data      # hook state set while evaluating the element expression
             kind = {ast.ListComp: 'listcomp', ast.SetComp: 'setcomp', ast.GeneratorExp: 'genexp'}[type(n)]
-            if kind in ('listcomp', 'genexp') and len(gens) == 1 and not gens[0][1] and gens[0][0][0] in ('tuple', 'list', 'name'):
+            if kind in ('listcomp', 'genexp') and len(gens) == 1 and not gens[0][1] and (gens[0][0][0] in ('tuple', 'list', 'name') or (gens[0][0][0] == 'const' and isinstance(gens[0][0][1], str) and getattr(self, '_in_helper', 0))):
                 # over a literal table of a few names (field keys) the comprehension is the display it spells out
                 items_ = self.iter_items(gens[0][0], st, limit=8)
                 if items_ and all(i_[0] == 'const' and isinstance(i_[1], str) for i_ in items_):
